@@ -323,6 +323,52 @@ def deep(obj):
         return obj
 
 
+def perturbed_checkpoint(st, rng, ulps=2):
+    """A copy of a kept state whose correction pairs are multiplied entry-wise by (1 + k*eps), |k| <= ulps: the same
+    history up to rounding (what a restart rebuilds from differences/cumulative sums is only ever that accurate)."""
+    from scipy.optimize import LbfgsInvHessProduct
+
+    ck = copy.deepcopy(st)
+    sk = np.array(ck.hess_inv.sk, dtype=float)
+    yk = np.array(ck.hess_inv.yk, dtype=float)
+    e = np.finfo(float).eps
+    sk = sk * (1.0 + e * rng.integers(-ulps, ulps + 1, sk.shape))
+    yk = yk * (1.0 + e * rng.integers(-ulps, ulps + 1, yk.shape))
+    ck.hess_inv = LbfgsInvHessProduct(sk, yk)
+    return ck
+
+
+def grazes_bound(x, lb, ub, ulps=64):
+    """True when a coordinate of x is within a few ulp of a finite bound without being on it (x + 1.0*(bound - x) need not
+    round to the bound): the next Cauchy / subspace / maximum-step decisions for that coordinate are taken within rounding
+    distance of their thresholds."""
+    x, lb, ub = (np.asarray(a, dtype=float) for a in (x, lb, ub))
+    e = np.finfo(float).eps
+    for b in (lb, ub):
+        fin = np.isfinite(b)
+        gap = np.abs(np.where(fin, x - np.where(fin, b, 0.0), np.inf))
+        if np.any((gap > 0) & (gap <= ulps * e * np.maximum(1.0, np.abs(np.where(fin, b, 0.0))))):
+            return True
+    return False
+
+
+def rounding_sensitive(restart, st, ref_x, tol, seed=0, trials=4):
+    """Is the iterate produced by `restart(checkpoint) -> Trace` discontinuous at this state? The restart is repeated from
+    rounding-level perturbations of the state's pairs; when its own result moves by more than `tol` (relative) a discrete
+    decision (active set, maximum step, acceptance of a pair) sits within rounding distance of its threshold, and two
+    correct computations of the same step may differ by more than any tolerance: the comparison is not judged."""
+    rng = np.random.default_rng(seed)
+    ref_x = np.asarray(ref_x, dtype=float)
+    for _ in range(trials):
+        t = restart(perturbed_checkpoint(st, rng))
+        if t.exc is not None:
+            return True
+        x = np.asarray(t.snap["x"], dtype=float)
+        if x.shape != ref_x.shape or not (float(np.max(np.abs(x - ref_x))) / max(1.0, float(np.max(np.abs(ref_x)))) <= tol):
+            return True
+    return False
+
+
 class Intercept:
     """Rebind ``module.name`` to a recording wrapper for the duration of a ``with``.
 
